@@ -156,7 +156,7 @@ func (fr *frame) methodRecv(st *State, f *ast.SelectorExpr, sel *types.Selection
 			if lv.kind == lvHeap && lv.prefix == structClass(lv.T) {
 				return scalar(lv.ref, types.NewPointer(bt))
 			}
-			return &Value{K: VScalar, T: types.NewPointer(bt), S: mkVar(freshName("alias"), SInt), Alias: lv}
+			return &Value{K: VScalar, T: types.NewPointer(bt), S: aliasAddr(st, lv), Alias: lv}
 		}
 		v := fr.eval(st, f.X)
 		if !wantPtr && isPtr {
@@ -209,7 +209,7 @@ func (fr *frame) methodRecv(st *State, f *ast.SelectorExpr, sel *types.Selection
 		if lv == nil {
 			panic(unsupported("pointer method on embedded r-value"))
 		}
-		return &Value{K: VScalar, T: types.NewPointer(t), S: mkVar(freshName("alias"), SInt), Alias: lv}
+		return &Value{K: VScalar, T: types.NewPointer(t), S: aliasAddr(st, lv), Alias: lv}
 	}
 	return val
 }
